@@ -4,6 +4,7 @@ package syslog
 
 import (
 	"context"
+	"strings"
 
 	"go.uber.org/zap"
 
@@ -68,4 +69,30 @@ func VerifC11IngesterLine() {
 	}
 	verifrt.Assert("c11.ingester.pid-verbatim", verifrt.IsSubstring(line, capt.got[0].PID))
 	verifrt.Assert("c11.ingester.message-verbatim", verifrt.IsSubstring(line, capt.got[0].Message))
+}
+
+// C07 for records longer than the reader's 4096-byte buffer (sshd messages with long fields,
+// EXECVE records up to 8970 bytes): the framed line still reaches the processor as exactly
+// (pid, message), in one hand-over.
+func VerifC07LongRecord() {
+	L := verifrt.Param("L", 4100)
+	pid := verifrt.Str("pid", 1, 3, `[0-9]`)
+	msg := verifrt.Str("head", 2, 2, `[^\n ]`) + strings.Repeat("x", L) + verifrt.Str("tail", 1, 1, `[^\n ]`)
+	capt := &verifCapture{}
+	np := namedpipe.NewNamedPipeIngester(zap.NewNop().Sugar(), health.NewHealth())
+	path := verifrt.MkFifo("sshd-pipe")
+	s := NewSyslogIngester(path, capt, np)
+	go func() {
+		w := verifrt.FifoOpenWriter(path)
+		w.Write("1 short\n" + pid + " " + msg + "\n")
+		w.Close()
+	}()
+	_ = s.Ingest(context.Background()) // returns at end of stream
+	verifrt.Reach("c07.long.delivered")
+	verifrt.Assert("c07.long.one-entry-per-line", len(capt.got) == 2)
+	if len(capt.got) != 2 {
+		return
+	}
+	verifrt.AssertEqStr("c07.long.pid", capt.got[1].PID, pid)
+	verifrt.Assert("c07.long.message", capt.got[1].Message == msg)
 }
